@@ -434,10 +434,12 @@ def _note(found, key, hist, idx, f, b, a, count=1):
             found[key][1:] = [cand, idx, f, str(b), str(a), hist]
 
 
-def explore(ctx, alph_name, depth, agg):
-    alphabet = BASE if alph_name == "base" else EXT
-    plen = max(1, depth - 2)
-    items = [(alph_name, p, depth) for p in prefixes(alphabet, plen)]
+def explore(ctx, plan, agg):
+    """All plans in ONE fork pool; work items are subtrees below prefixes of length depth-2."""
+    items = []
+    for alph_name, depth in plan:
+        alphabet = BASE if alph_name == "base" else EXT
+        items += [(alph_name, p, depth) for p in prefixes(alphabet, max(1, depth - 2))]
     for stats, states, found in ctx.pmap(_explore_subtree, items, chunk=1, recycle=100000):
         for k, v in stats.items():
             agg["stats"][k] = agg["stats"].get(k, 0) + v
@@ -614,27 +616,26 @@ def run(ctx):
     w0 = World()
     agg["states"].add(w0.state_key(w0.snapshot()))      # the root state
     upper_checked = 0
+    explore(ctx, plan, agg)
     for alph_name, depth in plan:
-        explore(ctx, alph_name, depth, agg)
         alphabet = BASE if alph_name == "base" else EXT
         plen = max(1, depth - 2)
-        # edges above the work-item prefixes: the worker of a non-first prefix starts
-        # checking at its own extension, so check every edge of depth <= plen here once
-        ups = []
+        # edges above the work-item prefixes (a worker starts checking below its prefix):
+        # every edge of depth <= plen is checked here, once, in the parent
         for n in range(1, plen + 1):
-            ups += [(alph_name, p) for p in prefixes(alphabet, n)]
-        for path, vio, sk in ctx.pmap(_upper_edges, ups, chunk=64):
-            upper_checked += 1
-            agg["states"].add(sk)
-            agg["stats"]["transitions"] = agg["stats"].get("transitions", 0) + 1
-            for key, idx, f, b, a in vio:
-                if key.startswith("derive-") and _probe_impure(path[:-1], idx):
-                    key = "run-changes-earlier-config:by-run:" + key.rsplit(":", 1)[1] if "-config:" in key \
-                        else "run-changes-earlier-fields:by-run"
-                    path = path[:-1] + (("run", None, idx),)
-                _note(agg["found"], key, path, idx, f, b, a)
-        ctx.say(f"C28 {alph_name} depth {depth}: leaves so far {agg['stats'].get('leaves', 0)}, "
-                f"states {len(agg['states'])}, violation keys {len(agg['found'])}")
+            for p in prefixes(alphabet, n):
+                path, vio, sk = _upper_edges((alph_name, p))
+                upper_checked += 1
+                agg["states"].add(sk)
+                agg["stats"]["transitions"] = agg["stats"].get("transitions", 0) + 1
+                for key, idx, f, b, a in vio:
+                    if key.startswith("derive-") and _probe_impure(path[:-1], idx):
+                        key = "run-changes-earlier-config:by-run:" + key.rsplit(":", 1)[1] if "-config:" in key \
+                            else "run-changes-earlier-fields:by-run"
+                        path = path[:-1] + (("run", None, idx),)
+                    _note(agg["found"], key, path, idx, f, b, a)
+    ctx.say(f"C28 {plan}: leaves {agg['stats'].get('leaves', 0)}, states {len(agg['states'])}, "
+            f"violation keys {len(agg['found'])}")
 
     # report: every witness re-verified without probes
     unverified = 0
